@@ -480,6 +480,10 @@ func parseClause(kind, text, pos string) (*Clause, error) {
 		c.Props = strings.Fields(strings.ReplaceAll(m[1], ",", " "))
 		text = text[len(m[0]):]
 	}
+	// a label of the form [Cnn.xxx] ties the clause to that property alone
+	if l := c.Label; len(c.Props) == 0 && len(l) > 4 && l[0] == 'C' && l[1] >= '0' && l[1] <= '9' && l[2] >= '0' && l[2] <= '9' && l[3] == '.' {
+		c.Props = []string{l[:3]}
+	}
 	c.Text = text
 	e, err := parseSE(text)
 	if err != nil {
